@@ -54,7 +54,7 @@ def run_mc(ctx, module, cfg, workers=8, timeout=1500, heap="8g", expect_violatio
     """exhaustive TLC run on spec/<module>.tla with spec/<cfg>; returns dict(states, distinct, ok, ...)"""
     md = os.path.join(ctx.work, "mc-" + cfg.replace(".cfg", ""))
     os.makedirs(md, exist_ok=True)
-    cmd = tlc_cmd(["-Xmx" + heap]) + ["-workers", str(workers), "-metadir", md] + (["-coverage", "1"] if coverage else []) + ["-config", cfg]
+    cmd = tlc_cmd(["-Xmx" + heap]) + ["-workers", str(workers), "-noGenerateSpecTE", "-metadir", md] + (["-coverage", "1"] if coverage else []) + ["-config", cfg]
     if simulate:
         cmd += ["-simulate", simulate]
     cmd += [module + ".tla"]
@@ -96,7 +96,7 @@ def tlc_generate(ctx, module, cfg_text, name, timeout=600, heap="6g", workers=4,
     md = os.path.join(ctx.work, "gen-" + name)
     os.makedirs(md, exist_ok=True)
     outp = os.path.join(ctx.work, "gen-%s.out" % name)
-    cmd = tlc_cmd(["-Xmx" + heap]) + ["-workers", str(workers), "-metadir", md, "-config", cfg]
+    cmd = tlc_cmd(["-Xmx" + heap]) + ["-workers", str(workers), "-noGenerateSpecTE", "-metadir", md, "-config", cfg]
     if simulate:        # (num, depth): long random behaviours instead of the breadth-first edge enumeration
         cmd += ["-simulate", "num=%d" % simulate[0], "-depth", str(simulate[1]), "-seed", str(ctx.seed)]
     cmd += [module + ".tla"]
